@@ -174,6 +174,7 @@ class LoggedCtx(AsyncContext):
         self.fault = fault
         self.nres = 0
         self.npause = 0
+        self.pause_failed = False
         self.by_block = False
 
     def __enter__(self):
@@ -200,10 +201,15 @@ class LoggedCtx(AsyncContext):
 
     def pause(self):
         self.T.ev.append({"EvPause": [list(self.tid), self.cid]})
+        f = self.fault
+        if self.pause_failed and f.get("sticky"):
+            # a persistent failure (e.g. "no suspension with uncommitted writes"): once pause() has failed, it fails on
+            # every later call, whoever makes it (scheduler or the with block's __exit__)
+            raise self.T.err(f["pause"][1])
         if not self.by_block:
             self.npause += 1
-            f = self.fault
             if f is not None and "pause" in f and f["pause"][0] == self.npause:
+                self.pause_failed = True
                 raise self.T.err(f["pause"][1])
 
 
